@@ -112,7 +112,8 @@ RULE = ("cases = directed witnesses | every rooted multifurcating shape n<=4 x r
         "x 10 length patterns (incl. negative lengths), n=5: half of the shapes x 1 pattern (quick) / every shape x rooting x 3-4 "
         "patterns (thorough); a share padded with unary nodes to equal leaf depth "
         "| random trees (polytomies, unifurcations, 10 length patterns, 8% rescaled by 2**+-40, 3 namespace layouts, 3 rootings) "
-        "driven through a history matrix -> accessors x options -> queries (every argument kind) -> encode -> SPR -> refresh -> "
+        "driven through a history matrix -> accessors x options -> the same matrix object re-compiled from another tree and "
+        "asked again -> queries (every argument kind) -> encode -> SPR -> refresh -> "
         "leaf cut off / grafted -> refresh | additive matrices from random trees with positive dyadic / float "
         "lengths -> NJ (distances and edge counts) | ultrametric trees -> UPGMA; equal-depth trees with non-clock-like lengths -> "
         "UPGMA on edge counts | CSV round trips: 7 option variants x 9 sink/source routes, 60% with labels that need quoting, "
